@@ -116,6 +116,9 @@ class Sim:
                     k = len(mop.split(">")[0])
                     if k > 1 and mp < a < mp + k:
                         a = mp + k
+                    if k > 1 and getattr(self, "mirror", False) and mp < b < mp + k:
+                        b = mp  # mirrored layouts: a read does not END inside a multi-nucleotide substitution either
+
             if b <= a:
                 continue
             cig = []
